@@ -15,6 +15,10 @@
          node{i} precedes its edges, input edges are emitted before columns[out]
          is updated for the same line (edges point forward: acyclic by
          construction)
+  C16.d  name lists are shared between the records of _pipeline_info
+         (info["outputs"] = data; info["inputs"] = data; data = info[-1]["outputs"]):
+         no element store, augmented assignment or container mutator is applied
+         to a list read from a record or received as a parameter
 """
 
 from __future__ import annotations
@@ -30,6 +34,7 @@ from .sem import guarded_values, defs_texts, expander, ctext, want, xt, calls, p
 RULES = {
     "C16.a": "debug wrappers are transparent and self-consistent in their keys; saved originals and the lambdas calling them agree",
     "C16.b": "enumerate_pipeline_models: yield-before-recursion, coordinates extended by the loop's enumerate variable, container kinds agree with _pipeline_info; pipeline2str one row per item",
+    "C16.d": "_pipeline_info: a name list read out of a record (rec['outputs'] / rec['inputs']) or received as `data` is never modified in place: records share these lists, so an in-place rename rewrites the endpoints other nodes already collected (undeclared edge endpoints)",
     "C16.c": "pipeline2dot: declared-before-used node templates, ports from the same enumerate, input edges before the columns table is updated (forward edges only)",
 }
 
@@ -320,6 +325,52 @@ def check_c(ck, repo):
     ck.verdict(info_ok and src_of(L.iter.args[0]) in [t.split(" = ")[0] for t in st if "schema_after=data" in t], "C16.c", pd, "info = [schema] + _pipeline_info(...)", "line 0 is the input schema, the steps follow in pipeline order", "the list of lines is not [input schema] + steps")
 
 
+_LIST_MUTATORS = {"append", "extend", "insert", "remove", "pop", "clear", "sort", "reverse", "update", "setdefault", "popitem", "__setitem__", "__delitem__"}
+
+
+def _shared_name_list(x: ast.AST, params) -> bool:
+    """rec['outputs'] / rec['inputs'] (whatever rec is) or a data parameter"""
+    if isinstance(x, ast.Name):
+        return x.id in params
+    if isinstance(x, ast.Subscript):
+        k = const_value(x.slice)
+        return k in ("outputs", "inputs")
+    return False
+
+
+def check_d(ck, repo):
+    pi = repo.func(VZ, "_pipeline_info")
+    if pi is None:
+        raise AnalysisError("anchor vanished: _pipeline_info")
+    from .sem import nested_functions
+
+    n = 0
+    for fi in [pi] + nested_functions(repo, pi):
+        params = {p for p in pi.named_params if p in ("data", "former_data")} if fi is pi else set()
+        sites = []
+        for st in own_nodes(fi.node):
+            if isinstance(st, (ast.Assign, ast.AugAssign, ast.AnnAssign, ast.Delete)):
+                tg = st.targets if isinstance(st, (ast.Assign, ast.Delete)) else [st.target]
+                for t in tg:
+                    if isinstance(t, ast.Subscript):
+                        sites.append((st, t.value, "element store"))
+                    elif isinstance(st, ast.AugAssign) and isinstance(t, ast.Name):
+                        sites.append((st, t, "augmented assignment"))
+            if isinstance(st, ast.Call) and isinstance(st.func, ast.Attribute) and st.func.attr in _LIST_MUTATORS:
+                sites.append((stmt_of(st), st.func.value, f".{st.func.attr}()"))
+        for st, recv, how in sites:
+            n += 1
+            alts = guarded_values(repo, fi, recv, st)
+            hit = [v for _, v, _ in alts if _shared_name_list(v, params)]
+            if isinstance(recv, ast.Name) and recv.id in params and not alts:
+                hit = [recv]
+            if hit:
+                ck.violated("C16.d", fi, st, f"{how} on `{src_of(recv)}` = `{xt(hit[0])[:80]}`: this list of names is shared with other records (a step that passes its single input through stores the same list as inputs and outputs, and the next step receives it as `data`): renaming in place changes endpoints that were already collected, so an edge refers to a name no node declares")
+            else:
+                ck.holds("C16.d", fi, st, f"{how} on a list built in this call (`{src_of(recv)}`)", nontrivial=False)
+    ck.holds("C16.d", pi, "no in-place update of a shared name list", f"{n} update sites of _pipeline_info and its helpers examined")
+
+
 def run(ck):
     repo = ck.repo
     for k, v in RULES.items():
@@ -327,6 +378,8 @@ def run(ck):
     check_a(ck, repo)
     check_b(ck, repo)
     check_c(ck, repo)
+    check_d(ck, repo)
+    ck.require_count("C16.d", 1, "update sites of _pipeline_info")
     ck.require_count("C16.a", 10, "4 wrappers x (body, signature), table, installation, 4 saved originals")
     ck.require_count("C16.b", 12, "yields, recursive calls, container kinds x2 functions, pipeline2str")
     ck.require_count("C16.c", 4, "schema 0, order, declarations, input/output edges, ports, delimiters, input table, line list")
@@ -351,5 +404,12 @@ WITNESSES = [
     {"name": "dot-edge-wrong-node", "file": _V, "rule": "C16.c", "old": '                edge = f"  {nc} -> node{i};"\n', "new": '                edge = f"  {nc} -> node{i - 1};"\n'},
     {"name": "dot-input-port-by-name-order", "file": _V, "rule": "C16.c", "old": '                columns[col] = f"sch0:f{c}"\n', "new": '                columns[col] = f"sch0:f{len(schema) - 1 - c}"\n'},
 ]
-TWINS = []
+_OLD_LOOP = '            new_outputs = []\n            for o in info[-1]["outputs"]:\n                add = _get_name(context, prefix=o, info=info)\n                outputs.append(add)\n                new_outputs.append(add)\n            info[-1]["outputs"] = new_outputs\n'
+WITNESSES += [
+    {"name": "union-outputs-renamed-in-place", "file": _V, "rule": "C16.d", "old": _OLD_LOOP, "new": '            last_outputs = info[-1]["outputs"]\n            for k, o in enumerate(last_outputs):\n                last_outputs[k] = _get_name(context, prefix=o, info=info)\n            outputs.extend(last_outputs)\n'},
+    {"name": "pipeline-data-sorted-in-place", "file": _V, "rule": "C16.d", "old": '            data = info[-1]["outputs"]\n            infos.extend(info)\n        return infos\n', "new": '            data = info[-1]["outputs"]\n            data.sort()\n            infos.extend(info)\n        return infos\n'},
+]
+TWINS = [
+    {"name": "union-outputs-renamed-by-comprehension", "file": _V, "old": _OLD_LOOP, "new": '            new_outputs = [_get_name(context, prefix=o, info=info) for o in info[-1]["outputs"]]\n            outputs.extend(new_outputs)\n            info[-1]["outputs"] = new_outputs\n'},
+]
 MIN_WITNESSES = 12
